@@ -71,8 +71,8 @@ open YaraModel.ReVm in
     a fiber that (a) is reachable in the abstract machine by ε-steps (every branch `_yr_re_fiber_sync` can take),
     zero-width steps and consuming steps and (b) stands at RE_OPCODE_MATCH.  Holds for ANY bytecode, flags and input: the
     fiber list, its de-duplication, the executed-split set and KILL_TAIL only ever REMOVE behaviours.  (First half of VM
-    soundness; the second half — reachable-at-MATCH implies a match of the expression — is proved for the ε-loop-free
-    hex fragment in Thm/C02 `vm_sound_partial`; for `*`, `+`, `{n,m}` it needs the counter-stack invariant: not yet proved.) -/
+    soundness; the second half — reachable-at-MATCH implies a match of the expression — is `vm_sound_partial` below; for
+    `e{n,m}` it needs the counter-stack invariant: not yet proved.) -/
 theorem vm_reports_reachable (e : Env) (m : Int) (c : List Nat) (h : exec e = .done m c) :
     (∀ L, L ∈ c → ∃ f md, Reach e f md L ∧ u8 e.code f.ip = OP_MATCH) ∧
     (0 ≤ m → ∃ f md, Reach e f md m.toNat ∧ u8 e.code f.ip = OP_MATCH) :=
@@ -86,20 +86,52 @@ example : exec { code := (emitCode false (.cat (.lit 97) (.cat (.star (.alt (.li
 open YaraModel.ReVm YaraModel.ReEmit in
 /-- `vm_sound_partial`: soundness of the bytecode VM on emitted code for regular expressions built from literals, `.`,
     the escapes \w \W \s \S \d \D, the anchors ^ $ and the word boundaries \b \B, `.{n,m}`, concatenation, alternation,
-    `*` and `+` (greedy or lazy, nested in any way), bracket classes `[...]` — i.e. every node kind except counted repeats
-    `e{n,m}` of a non-dot body and the empty alternative.  For ALL such expressions, ALL buffers and start positions, byte
-    mode (ascii), any nocase / dot-all flags, exhaustive or first-match mode, forward code: every length the Lean model of
-    `yr_re_exec` reports on the code produced by the Lean model of `_yr_re_emit` is a length the specification admits at that
-    position (in particular a reported match of the string at an offset implies that the expression matches there).
+    `*`, `+` and `?` (greedy or lazy, nested in any way), bracket classes `[...]` — i.e. every node kind except counted repeats
+    `e{n,m}` of a non-dot body other than `e?` and the empty alternative.  For ALL such expressions, ALL buffers and start positions, byte
+    mode (ascii), any nocase / dot-all flags, exhaustive or first-match mode, WITH OR WITHOUT the scan mode of `matches`,
+    forward code: every length L the Lean model of `yr_re_exec` reports on the code produced by the Lean model of
+    `_yr_re_emit` ends a match of the expression inside the buffer that begins at the start position — or, in scan mode
+    only, at some later position s0 ≤ start + L (in particular a reported match of a string at an offset implies that the
+    expression matches there).  `+` is emitted as in the fixed `_yr_re_emit` (52e6c09: the split jumps back to the first
+    byte of the code for e), the scan-mode restart and ACTION_CONTINUE as in the fixed `yr_re_exec` (eeb23a8, b5b43d7).
     Both models are validated against the C functions on every generated case (real bytecode: C VM = Lean VM; emitted bytes
-    equal).  Full statement aimed at (not yet proved): also `e{n,m}` (REPEAT_START/END with the counter stack), wide mode, backward code, the scan mode of `matches`, and the converse inclusion (completeness, which
-    needs the executed-split-set argument for ε-loops). -/
+    equal).  Full statement aimed at (not yet proved): also `e{n,m}` beyond `e?` (REPEAT_START/END with the counter stack) and the
+    empty alternative, wide mode, backward code, and the converse inclusion (completeness, which needs the executed-split-set
+    argument for ε-loops). -/
 theorem vm_sound_partial (r : Re) (hf : Frag r) (hsz : clen r < 32000) (buf : Bytes) (start : Nat) (hst : start ≤ buf.size)
-    (fl : VmFlags) (hw : fl.wide = false) (hb : fl.backwards = false) (hsc : fl.scan = false) (fuel : Nat) (m : Int) (c : List Nat)
+    (fl : VmFlags) (hw : fl.wide = false) (hb : fl.backwards = false) (fuel : Nat) (m : Int) (c : List Nat)
     (h : exec { code := (emitCode false r).toArray, entry := 0, buf := buf, start := start, fl := fl, syncFuel := fuel } = .done m c) :
-    (∀ L, L ∈ c → Re.Matches (specFlags fl) buf r start (start + L)) ∧
-    (0 ≤ m → Re.Matches (specFlags fl) buf r start (start + m.toNat)) :=
-  vm_sound_frag r hf hsz buf start hst fl hw hb hsc fuel m c h
+    (∀ L, L ∈ c → ∃ s0, start ≤ s0 ∧ s0 ≤ start + L ∧ start + L ≤ buf.size ∧ (fl.scan = false → s0 = start) ∧
+      Re.Matches (specFlags fl) buf r s0 (start + L)) ∧
+    (0 ≤ m → ∃ s0, start ≤ s0 ∧ s0 ≤ start + m.toNat ∧ start + m.toNat ≤ buf.size ∧ (fl.scan = false → s0 = start) ∧
+      Re.Matches (specFlags fl) buf r s0 (start + m.toNat)) :=
+  envOf_sound r hf hsz buf start hst fl hw hb fuel m c h
+
+open YaraModel.ReVm YaraModel.ReEmit in
+/-- `matches_sound_partial`: the `matches` operator never holds without reason.  `str matches /r/` runs `yr_re_exec` in
+    scan mode from offset 0 of the string and is true iff the result is ≥ 0; for every expression of the fragment above,
+    every string and flags: if the model of the VM returns a non-negative value on the emitted code then the expression
+    matches some substring str[o, q).  (Before eeb23a8 the empty match at the END of the string was not tried; the converse
+    — every match is found — is the completeness statement not yet proved.) -/
+theorem matches_sound_partial (r : Re) (hf : Frag r) (hsz : clen r < 32000) (str : Bytes)
+    (fl : VmFlags) (hw : fl.wide = false) (hb : fl.backwards = false) (fuel : Nat) (m : Int) (c : List Nat)
+    (h : exec { code := (emitCode false r).toArray, entry := 0, buf := str, start := 0, fl := fl, syncFuel := fuel } = .done m c)
+    (hm : 0 ≤ m) : ∃ o q, o ≤ q ∧ q ≤ str.size ∧ Re.Matches (specFlags fl) str r o q :=
+  matches_sound_frag r hf hsz str fl hw hb fuel m c h hm
+
+open YaraModel.ReVm YaraModel.ReEmit in
+/-- instance (the former finding C03-matches-empty-at-end): `"abc" matches /x*$/` — the scan reaches offset 3 and reports the
+    empty match there -/
+example : exec { code := (emitCode false (.cat (.star (.lit 120) true) .eol)).toArray, entry := 0, buf := "abc".toUTF8.data, start := 0, fl := { scan := true } } = .done 3 [] := by decide
+
+open YaraModel.ReVm YaraModel.ReEmit in
+/-- instance (the former finding C03-plus-backjump): `x(a?b)+c` over `xbc` — the loop of `+` re-enters at the split of `a?`,
+    the first byte of the body; the expression is inside the fragment of `vm_sound_partial` -/
+example : exec { code := (emitCode false (.cat (.lit 120) (.cat (.plus (.cat (.range (.lit 97) 0 1 true) (.lit 98)) true) (.lit 99)))).toArray, entry := 0, buf := "xbc".toUTF8.data, start := 0, fl := {} } = .done 3 [] := by decide
+
+open YaraModel.ReEmit in
+example : Frag (.cat (.lit 120) (.cat (.plus (.cat (.range (.lit 97) 0 1 true) (.lit 98)) true) (.lit 99))) :=
+  .cat (.lit _) (.cat (.plus _ (.cat (.opt _ (.lit _)) (.lit _))) (.lit _))
 
 open YaraModel.ReEmit in
 /-- the fragment is not empty: `\ba(b|c)*d+\B` -/
